@@ -348,8 +348,9 @@ def _lit_alternatives(e):
 
 def const_site(em):
     """the identifier written right after the literal `const ` -> (entry of the identifier write, the `export ` decision before
-    it).  The decision is the emission entry of a separate `export ` write (its enclosing conditions decide), or ("cond", index,
-    condition) when one write chooses between the literals `export const ` and `const `."""
+    it).  The decision is the emission entry of a separate `export ` write (its enclosing conditions decide), ("cond", index,
+    condition) when one write chooses between the literals `export const ` and `const `, or ("value", index, expression) when
+    a computed modifier is written right before `const ` (what it was chosen by is found by tracing the expression)."""
     for pos, (i, kind, lit, n) in enumerate(em):
         if kind == "write" and lit is None and n["args"]:
             alt = _lit_alternatives(n["args"][0])
@@ -362,6 +363,9 @@ def const_site(em):
             for j in range(pos - 1, -1, -1):
                 if em[j][1] == "write" and em[j][2] == "export ":
                     exp = em[j]
+                    break
+                if j == pos - 1 and em[j][1] == "write" and em[j][2] is None and em[j][3]["args"]:
+                    exp = ("value", em[j][0], em[j][3]["args"][0])   # a computed modifier (`export ` / `declare ` / ``) chosen elsewhere
                     break
                 if em[j][1] in ("write", "write_for") and em[j][2] not in ("declare ", None):
                     break
@@ -392,7 +396,7 @@ class Carriers:
     same-crate helpers inlined, in the shared driver) puts there.  Names of the carriers, of their fields and of the functions that
     fill them play no role.  Carrier keys are ADT paths for structs and variant paths for enum variants with named fields."""
 
-    def __init__(self, P, roots, drivers=()):
+    def __init__(self, P, roots, drivers=(), extra=()):
         from templates import inlined
         self.P = P
         self.adts = set()
@@ -406,6 +410,10 @@ class Carriers:
                 b = _adt_of_type(P, ty)
                 if b and b.startswith(PR):
                     todo.append(b)
+        # further carriers given by the caller (the visitor structs themselves: a visitor may keep in a field of its own what it
+        # computed from its options when it was built); their field types are not followed — option structs stay leaves
+        self.extra = {a for a in extra if a in P.adts and P.adts[a].kind == "Struct"}
+        self.adts |= self.extra
         # where the driver's side constructs things: functions reachable from the shared driver without entering a visitor
         vis = {f.path for f in P.trait_impls(VIS)}
         shared = P.reachable(list(drivers), stop=vis) if drivers else set()
@@ -441,6 +449,7 @@ class Carriers:
             # a constructor inside a helper of the shared driver sees its parameters through the driver (virtual inlining)
             roots_fn.setdefault(d.path, d)
         self.sites = {}   # (carrier, field) -> set of atoms
+        self.site_exprs = {}   # (carrier, field) -> [(Prov, expression)]
         for f in roots_fn.values():
             fi = inlined(P, f)
             pv = None
@@ -449,6 +458,7 @@ class Carriers:
                     pv = pv or Prov(fi)
                     for fld in n["fields"]:
                         self.sites.setdefault((self._lit_key(n), fld["name"]), set()).update(self.trace(pv, fld["e"]))
+                        self.site_exprs.setdefault((self._lit_key(n), fld["name"]), []).append((pv, fld["e"]))
 
     def trace(self, pv, e, _frame=None):
         """Field-sensitive provenance of an expression, as atoms (("field", adt, f) | ("call", path) | ("def", path) | ("param", name)):
@@ -488,6 +498,10 @@ class Carriers:
                 elif "def" in n:
                     out.add(("def", norm(n["def"])))
                 continue
+            if k == "Lit":
+                if n.get("lk") == "str":
+                    out.add(("lit", n.get("v")))
+                continue
             if k == "Field" and n.get("adt"):
                 out.add(("field", norm(n["adt"]), n["field"]))
                 if norm(n["adt"]) not in self.adts:
@@ -522,6 +536,51 @@ class Carriers:
                 continue   # patterns carry no value
             st.extend(v for kk, v in n.items() if kk != "inl" and isinstance(v, (dict, list)))
         return out
+
+    def deciding(self, pv, e, text):
+        """(atoms of the conditions that decide whether the value of `e` is the string literal `text`, found?) — `e` is followed
+        through local bindings and through carrier fields to the expressions their constructors put there; only the `if`/`match`
+        whose branches differ in containing the literal count (a later choice between other texts does not)."""
+        def has(x):
+            return any(y.get("k") == "Lit" and y.get("lk") == "str" and y.get("v") == text for y in subnodes(x))
+        out, found, seen = set(), False, set()
+        st = [(pv, e)]
+        while st:
+            pvx, n = st.pop()
+            if isinstance(n, list):
+                st.extend((pvx, y) for y in n)
+                continue
+            if not isinstance(n, dict):
+                continue
+            k = n.get("k")
+            if k == "Lit":
+                found = found or (n.get("lk") == "str" and n.get("v") == text)
+                continue
+            if k == "Path" and "local" in n:
+                if (id(pvx), n["local"]) not in seen:
+                    seen.add((id(pvx), n["local"]))
+                    st.extend((pvx, src) for src, _ in pvx.src.get(n["local"], []) if src is not None)
+                continue
+            if k == "Field" and n.get("adt") and norm(n["adt"]) in self.adts:
+                key = (norm(n["adt"]), n["field"])
+                if key not in seen:
+                    seen.add(key)
+                    st.extend(self.site_exprs.get(key, []))
+                continue
+            if k == "If":
+                branches = [b for b in (n.get("then"), n.get("else")) if b is not None]
+                if any(has(b) for b in branches) and not all(has(b) for b in branches):
+                    out |= self.trace(pvx, n["cond"])
+                st.extend((pvx, b) for b in branches if has(b))
+                continue
+            if k == "Match" and n.get("src") == "Normal":
+                arms = [a["body"] for a in n["arms"]]
+                if any(has(a) for a in arms) and not all(has(a) for a in arms):
+                    out |= self.trace(pvx, n["scrut"])
+                st.extend((pvx, a) for a in arms if has(a))
+                continue
+            st.extend((pvx, v) for kk, v in n.items() if kk != "inl" and isinstance(v, (dict, list)))
+        return out, found
 
     def field_adt(self, adt, field):
         """the workspace ADT the field's type names (struct fields and named fields of enum variants)"""
@@ -564,11 +623,14 @@ class Carriers:
                 if a[1].startswith((PR, "<")) or a[1].endswith("::name_pos"):
                     continue   # printer helpers (traced through their returns when inlined); trait impls (Display..)
                 sig.add(("call", a[1]))
+            elif a[0] == "lit":
+                sig.add(("lit", a[1]))
         return sig
 
     def raw_fields(self, atoms):
         """carrier fields (not mere path steps) among atoms"""
-        return {(a[1], a[2]) for a in atoms if a[0] == "field" and a[1] in self.adts and self.field_adt(a[1], a[2]) not in self.adts}
+        return {(a[1], a[2]) for a in atoms if a[0] == "field" and a[1] in self.adts and a[1] not in self.extra
+                and self.field_adt(a[1], a[2]) not in self.adts}
 
 
 AST_NAME_ADTS = ("nitrogql_ast::operation::FragmentDefinition", "nitrogql_ast::operation::OperationDefinition", "nitrogql_ast::base::Ident")
@@ -577,7 +639,7 @@ AST_NAME_ADTS = ("nitrogql_ast::operation::FragmentDefinition", "nitrogql_ast::o
 def naming(sig):
     """the part of a signature that decides a *name*: option fields (any struct of the printer crate), the definition's own
     fields, and functions applied; fields that merely locate the definition in the document are left out"""
-    return {s for s in sig if s[0] == "call" or s[0].startswith(PR) or s[0] in AST_NAME_ADTS}
+    return {s for s in sig if s[0] == "call" or (s[0] != "lit" and (s[0].startswith(PR) or s[0] in AST_NAME_ADTS))}
 
 
 def _show(sig):
@@ -621,7 +683,7 @@ def r14b(P, R):
             R.undecided("R14-b", "visitors", "the context parameter of OperationPrinterVisitor::%s is not a struct of the workspace" % m)
             return
     driver0 = P.fn(PR + "operation_base_printer::OperationPrinter::print_document", required=False)
-    C = Carriers(P, set(ctx.values()), [driver0] if driver0 else [])
+    C = Carriers(P, set(ctx.values()), [driver0] if driver0 else [], extra={v[m].self_adt for v in (js, ts) for m in methods if v[m].impl_trait and v[m].self_adt})
     opt = lambda f: (BASEOPT, f)
 
     def site(side, m):
@@ -639,6 +701,14 @@ def r14b(P, R):
         if exp[0] == "cond":
             ga, n = guard_atoms(f, exp[1], pv, C)
             ga, n = ga | C.trace(pv, exp[2]), n + 1
+        elif exp[0] == "value":
+            ga, n = guard_atoms(f, exp[1], pv, C)
+            va, found = C.deciding(pv, exp[2], "export ")
+            if not found:
+                R.undecided("R14-b", key, "%s writes a computed text before the %s constant that was not traced to the literal `export `; the "
+                            "export condition is not decided on this shape" % (f.path, what), loc=f.loc())
+                return None
+            ga, n = ga | va, n + 1
         else:
             ga, n = guard_atoms(f, exp[0], pv, C)
         raw = C.raw_fields(ga)
@@ -650,8 +720,10 @@ def r14b(P, R):
         elif not raw and not opts:
             R.undecided("R14-b", key, "%s: the condition of the `export ` write was not traced to a context field" % f.path, loc=f.loc())
         else:
-            R.check("R14-b", key, bool(raw) and opts == want_opts,
-                    "`export` of the %s constant is conditional on the context flag decided by the shared driver only" % what,
+            # through the context flag, or from the same shared option directly: which options decide is what matters here; that the
+            # two sides decide alike in every other respect is compared by op-export-agree / frag-export-agree
+            R.check("R14-b", key, opts == want_opts,
+                    "`export` of the %s constant is decided by what the shared driver decides it from" % what,
                     "%s exports the %s constant under a condition that depends on %s; the shared driver decides it from %s and the other "
                     "side follows the context flag" % (f.path, what, _show(sig) or "no context flag", _show(want_opts) or "the document only"), loc=f.loc())
         return raw, sig
@@ -684,6 +756,10 @@ def r14b(P, R):
     if len(sigs) == 2:
         R.check("R14-b", "op-const-agree", sigs["js"] == sigs["ts"], "both sides name the operation constant identically",
                 "operation constant naming differs: js=%s ts=%s" % (_show(sigs["js"]), _show(sigs["ts"])))
+    if len(gsigs) == 2:
+        R.check("R14-b", "op-export-agree", gsigs["js"] == gsigs["ts"], "both sides export the operation constant under the same condition",
+                "the operation constant is exported under different conditions: js=%s ts=%s — one side declares/exports a constant the other "
+                "does not" % (_show(gsigs["js"]), _show(gsigs["ts"])))
     # ---- fragment constant
     fsigs, fg = {}, {}
     need_fr = {opt("fragment_variable_suffix"), ("nitrogql_ast::operation::FragmentDefinition", "name")}
